@@ -61,10 +61,13 @@ JOBS = {
     "gtfA_noinfer": ("noinfer", GTF_A),       # GTF with both inference switches off
     "gffA_force": ("force", GFF_A),          # output file already exists; force=True
     "gffB_url": ("url", GFF_B),              # input given as a file:// URL
+    "gffA_debug": ("debug", GFF_A),          # verbose="debug": the log level must not change what is left behind
+    "gffB_prefix": ("path", GFF_B),          # its output file is named like the forced job's output plus a suffix, in the same directory
 }
 EXPECT_FAIL = {"gffDUP"}
 SETS2T = [("gffA_str", "gffA_str")]          # explored with torn first writes, within a pre-emption bound
-SETS2 = [("gffDUP", "gffB"), ("gtfA_noinfer", "gffA"), ("gffA", "gffA"), ("gffA", "gffB"), ("gffA", "gtfA"), ("gtfA", "gtfB"), ("gtfA", "gtfA"), ("gffB", "gffA_str"), ("gtfC", "gffB"), ("gtfA", "gffA_force"), ("gffB_url", "gffA")]
+SETS2 = [("gffDUP", "gffB"), ("gtfA_noinfer", "gffA"), ("gffA", "gffA"), ("gffA", "gffB"), ("gffA", "gtfA"), ("gtfA", "gtfB"), ("gtfA", "gtfA"), ("gffB", "gffA_str"), ("gtfC", "gffB"), ("gtfA", "gffA_force"), ("gffB_url", "gffA"),
+         ("gffA_debug", "gtfA"), ("gffA_force", "gffB_prefix")]
 SETS3 = [("gffA", "gtfA", "gffB"), ("gtfA", "gtfC", "gtfB"), ("gffA", "gffA", "gffA")]
 READERS = [2, 3]
 
@@ -101,11 +104,14 @@ def make_import(kind, lines, outdb, indir, idx):
             n = db.count_features_of_type()
             db.conn.close()
             return n
-    elif kind == "path":
+    elif kind in ("path", "debug"):
         path = dbutil.write_text(indir, "in%d.txt" % idx, text)
 
         def fn():
-            db = gffutils.create_db(path, outdb, verbose=False)
+            if kind == "debug":
+                import logging
+                logging.disable(logging.CRITICAL)          # the messages themselves are of no interest
+            db = gffutils.create_db(path, outdb, verbose="debug" if kind == "debug" else False)
             n = db.count_features_of_type()
             db.conn.close()
             return n
@@ -130,7 +136,7 @@ def reference(ctx, job):
         if job in EXPECT_FAIL:
             ctx.memo[key] = None
             return None
-        make_import("path" if kind in ("force", "url") else kind, lines, out, d, 0)()
+        make_import("path" if kind in ("force", "url", "debug") else kind, lines, out, d, 0)()
         ctx.memo[key] = dbutil.canon(out)
     return ctx.memo[key]
 
@@ -159,6 +165,8 @@ def run_imports(ch, ctx, jobs):
         # separate output files -- in separate directories, with the same file name
         os.makedirs(os.path.join(outdir, "job%d" % i))
         out = os.path.join(outdir, "job%d" % i, "annotation.db")
+        if j.endswith("_prefix"):
+            out = outs[[k for k, x in enumerate(jobs) if x.endswith("_force")][0]] + ".2"      # '<the forced job's output>.2'
         outs.append(out)
         fns.append(make_import(JOBS[j][0], JOBS[j][1], out, indir, i))
     # two imports of the SAME text given as a string: also explore torn first writes into the shared directory
@@ -181,6 +189,8 @@ def run_imports(ch, ctx, jobs):
             continue
         if not ctx.check(c.exit and c.exit.get("ok"), "import-process-failed", dict(sig, job=j),
                          schedule=compact, ops=[list(s) for s in schedule], error=(c.exit or {}).get("err"), tb=(c.exit or {}).get("tb")):
+            continue
+        if not ctx.check(os.path.exists(out), "output-database-missing", dict(sig, job=j), schedule=compact, ops=[list(s) for s in schedule]):
             continue
         got = dbutil.canon(out)
         bad = [k for k in ref if ref[k] != got[k]]
@@ -232,7 +242,7 @@ def run_readers(ch, ctx, n):
 
 def shards(tier):
     # the shard fixes the first two scheduling decisions (parallelism across workers)
-    sets2 = [x for x in SETS2 if tier != "quick" or x not in (("gtfA", "gtfA"), ("gtfA", "gtfB"))]     # quick drops two GTF/GTF pairs
+    sets2 = [x for x in SETS2 if tier != "quick" or x not in (("gtfA", "gtfA"), ("gffA", "gffB"))]     # quick drops two same-format pairs
     out = [("imports2", s, (a, b)) for s in sets2 for a in (0, 1) for b in (0, 1)]
     out += [("imports2torn", s, (a, b)) for s in SETS2T for a in (0, 1) for b in (0, 1)]
     out += [("imports3", s, (a, b)) for s in SETS3 for a in (0, 1, 2) for b in (0, 1, 2)]
